@@ -1025,8 +1025,36 @@ class Super:
                 if self.getter_sites:
                     return ("call", np, args, "%d:%d" % (ctx.id, bb))
                 return ("call", np, args)
+            v = self._expanded_tuple_result(ctx, bb)
+            if v is not None:
+                return v
             return ("ret", np, args, "%s:bb%d" % (fn.npath, bb))
         return ("ret", np, args, "%s:bb%d" % (fn.npath, bb))
+
+    def _expanded_tuple_result(self, ctx, bb):
+        """A helper expanded at this call site that returns a tuple built in one place (`(a, b)` as its last expression): the
+        components keep their identity in the caller (an extract-function refactor returning several values)."""
+        if ctx.id < 0:
+            return None
+        n = self.blocks_of.get((ctx.id, bb))
+        if n is None or not n.inlined:
+            return None
+        sub = None
+        for c in self.ctxs:
+            if c.call_node is n and c.via in ("call", "virtual"):
+                if sub is not None:
+                    return None
+                sub = c
+        if sub is None:
+            return None
+        defs = self._defs(sub.fn).get(0, [])
+        if len(defs) != 1 or defs[0][0] != "stmt" or 0 in sub.fn._partial:
+            return None
+        rv = sub.fn.blocks[defs[0][1]]["stmts"][defs[0][2]]["rv"]
+        if rv["k"] != "agg" or rv.get("agg") != "tuple" or not rv["ops"]:
+            return None
+        v = self.resolve_rv(sub, rv, None)
+        return None if _mentions(v, ("phi", "undef")) else v
 
     # ---- events ---------------------------------------------------------------------------
     def call_nodes(self, pred=None):
